@@ -235,6 +235,18 @@ def cases_for(rng, tier):
                         out.append((n, dims, re_t, ff, fs, mix, g,
                                     f'N{n};ff:{ff},fs:{fs},mix:{mix};'
                                     f'Re~{int(re_t)};grid={g}', reg))
+    # bare rods (no wire: diameter and lead both zero), the combinations
+    # accepted for them, every regime
+    for n in rings:
+        P, D, Dw, Pw, ftf = bs.random_dims(rng, n, 1, bare=True)
+        dims0 = (P, D, 0.0, 0.0, ftf)
+        for ff, fs, mix in (('CTD', 'CTD', 'CTD'), ('UCTD', 'UCTD', 'UCTD'),
+                            ('CTD', 'CTD', 'KC-BARE'), ('CTD', 'UCTD', 'UCTD'),
+                            ('UCTD', 'CTD', 'CTD')):
+            for reg, rl in res.items():
+                out.append((n, dims0, rl[0], ff, fs, mix, 'none',
+                            f'N{n};bare;ff:{ff},fs:{fs},mix:{mix};'
+                            f'Re~{int(rl[0])};grid=none', reg))
     # the regime boundaries themselves (just below, on, just above)
     for n in rings:
         dims = bs.random_dims(rng, n, 1)
